@@ -132,6 +132,12 @@ def sprinkle(rng, roots: list[Node]) -> dict[int, list[Node]]:
             k += 1
             last = list(preorder(root))[-1]
             inject.setdefault(id(last), []).append(Node(66, f"ALIAS-{k}", extra=[f"RENAMES {root.children[0].name or 'X'}"]))
+        if rng.random() < 0.25:
+            # a level-77 item (working storage, no part of the record) after any entry of the record
+            k += 1
+            where = rng.choice(list(preorder(root)))
+            w77 = Node(77, f"WS-{k}", pic="9(4)", width=4)
+            inject.setdefault(id(where), []).append(w77)
     return inject
 
 
